@@ -21,6 +21,7 @@ from ase.units import kB as KB
 
 from qv.lib import Harmonic, Rec, SoftPair, derive_seed, rng_for
 
+PACKAGE_RAISE_IS_VIOLATION = True  # every shard input is built inside the statement's domain (see qv/shard.py)
 LEVEL = "exploration"
 RULE = (
     "one evaluation = one forward-flip-forward integration, one dt-halving triple, one batch of momentum draws, or one Hamiltonian trial; "
